@@ -131,6 +131,16 @@ func vp_C11_topological() {
 	out2 := ReverseTopologicalOrdering(in2, order)
 	vpCheckOrdering("run1", evs, out1, refs)
 	vpAssert("order-independent", vpSameSeq(out1, out2))
+	// an event listed twice (state resolution hands over lists with repeated entries): still a permutation of the
+	// distinct inputs, each after its ancestors, and the same sequence
+	dup := evs[vpNondetInt("duplicated", 0, 2)]
+	in3 := append(append([]PDU{}, in2...), dup)
+	if vpNondetBool("duplicate_first") {
+		in3 = append([]PDU{dup}, in2...)
+	}
+	out3 := ReverseTopologicalOrdering(in3, order)
+	vpCheckOrdering("with-duplicate", evs, out3, refs)
+	vpAssert("duplicate-changes-nothing", vpSameSeq(out1, out3))
 	if vpConfig("order") == "auth" {
 		// mainline position/steps are all equal here, so the prev-events order also reduces to (ts, id); the auth order is
 		// compared with the published procedure
